@@ -5,10 +5,12 @@ open StarsimModel StarsimModel.Loop StarsimModel.Proto
 /-
 Line protocol (one line in, one line out):
   plan <mods> <tvecs>
-     mods  = `-` or comma list of `<kind>:<isDisease 0/1>` in the order of `sim.modules`
-     tvecs = `;`-separated comma lists of Int (units of time_eps); owner 0 = sim, owner i+1 = i-th module
-  ->  ok n=<#funcs> sep=<0/1> mono=<0/1> funcs=<owner:finish:row,…> plan=<time:order:owner:k:clock,…> final=<ti after Sim.run,…>
-  table  ->  the rows of Gen.collectFuncs as the model understands them
+     mods  = `-` or comma list of `<kind>:<isDisease 0/1>:<nameId>` (nameId 0 = "sim", 1 = "people")
+     tvecs = `;`-separated comma lists of Int (units of time_eps): sim; every module's own abstvec; the sim's again
+             for the `people` entry (owner mods.length+1)
+  ->  ok n=<#funcs> sep=<0/1> mono=<0/1> aligned=<0/1> funcs=<owner:clock:finish:row,…>
+         plan=<time:order:owner:clock:k:clockvalue,…> final=<ti after Sim.run of sim and modules,…>
+  table  ->  the rows of Gen.loopRows as the model understands them
 -/
 
 def parseKind? (s : String) : Option Kind :=
@@ -19,7 +21,7 @@ def parseKind? (s : String) : Option Kind :=
 
 def parseMod? (s : String) : Option Mod :=
   match s.splitOn ":" with
-  | [k, d] => do some ⟨← parseKind? k, ← parseBool? d⟩
+  | [k, d, n] => do some ⟨← parseKind? k, ← parseBool? d, ← parseNat? n⟩
   | _ => none
 
 def parseMods? (s : String) : Option (List Mod) :=
@@ -29,26 +31,27 @@ def parseTvecs? (s : String) : Option (List (List Int)) :=
   (s.splitOn ";").mapM parseIntList?
 
 def showEntry (ec : Entry × Nat) : String :=
-  s!"{ec.1.time}:{ec.1.order}:{ec.1.owner}:{ec.1.k}:{ec.2}"
+  s!"{ec.1.time}:{ec.1.order}:{ec.1.owner}:{ec.1.clock}:{ec.1.k}:{ec.2}"
 
 def stepLine (u : Unit) (line : String) : Unit × String :=
   match words line with
   | ["plan", ms, ts] =>
       match parseMods? ms, parseTvecs? ts with
       | some mods, some tvecs =>
-          if tvecs.length ≠ mods.length + 1 then (u, "bad-op") else
+          if tvecs.length ≠ mods.length + 2 then (u, "bad-op") else
           let T := Times.ofArrays (tvecs.map List.toArray).toArray
-          let fl := collect Gen.collectFuncs mods
+          let fl := collect Gen.loopRows mods
           let p := makePlan T fl
           let tr := trace [] p
           let fin := afterRun (finalClocks [] p)
           let owners := List.range (mods.length + 1)
-          (u, s!"ok n={fl.length} sep={showBool (separatedFast T fl fl.length)} mono={showBool (strictMonoB T owners)} " ++
-              s!"funcs={showList (fun (f : Func) => s!"{f.owner}:{showBool f.finish}:{f.row}") fl} " ++
+          (u, s!"ok n={fl.length} sep={showBool (separatedFast T fl fl.length)} mono={showBool (strictMonoB T (List.range (mods.length + 2)))} " ++
+              s!"aligned={showBool (alignedB T fl)} " ++
+              s!"funcs={showList (fun (f : Func) => s!"{f.owner}:{f.clock}:{showBool f.finish}:{f.row}") fl} " ++
               s!"plan={showList showEntry tr} final={showList (fun m => toString (fin m)) owners}")
       | _, _ => (u, "bad-op")
   | ["table"] =>
-      (u, "ok " ++ showList (fun (r : Row) => s!"{r.1}|{r.2.1}|{r.2.2}|{match contIsSimD r with | some true => "sim" | some false => "mod" | none => "?"}") Gen.collectFuncs)
+      (u, "ok " ++ showList (fun (r : Row) => s!"{r.1}|{r.2.1}|{r.2.2}|{match contIsSimD r with | some true => "sim" | some false => "mod" | none => "?"}") Gen.loopRows)
   | _ => (u, "bad-op")
 where
   contIsSimD (r : Row) : Option Bool :=
